@@ -223,6 +223,7 @@ def run(ctx):
     looked_up_types_may_lack_cpptype(ctx)
     nullable_array_bounds(ctx)
     scopes_do_not_contain_themselves(ctx)
+    namespaces_do_not_contain_themselves(ctx)
     scope_struct_type_is_nullable(ctx)
     typedefs_peeled_before_taking_apart(ctx)
     error_branches_of_actions_leave_a_value(ctx)
@@ -1545,6 +1546,175 @@ def scopes_do_not_contain_themselves(ctx):
         ctx.ob("R15.20", "yyparse|add_declaration(%s)|not-an-enclosing-class" % _norm(show(a)), ok, "src/cppparser/cppBison.yxx (generated line %s)" % f.loc(c).split(":")[-1], why)
     ctx.floor("R15.20", "add_declaration calls in the generated parser", n_all, 25)
     ctx.floor("R15.20", "add_declaration calls handing over a value-stack declaration", n, 1)
+
+
+def namespaces_do_not_contain_themselves(ctx):
+    """R15.34: a namespace definition `namespace N {` reopens the namespace N if the name finds one.  The lookup goes
+    through the enclosing scopes (and through aliases), so the scope it finds may be one the parser is inside of:
+    `namespace A { namespace A { int q; } }` (valid C++) and `namespace A { namespace B = A; namespace B {} }`.  Making a
+    CPPNamespace for such a scope and adding it to current_scope lists the namespace in itself, and CPPScope::write() /
+    CPPNamespace::output() never end (F-C15ae).  In the generated parser, a `new CPPNamespace(name, <looked-up scope>)`
+    that is written by its contents is therefore reached only after a walk from current_scope up get_parent_scope()
+    that compares every scope with the looked-up one and drops it (sets it to nullptr) on equality.  An alias
+    (`_alias_of` set in the same action) is written by name: CPPNamespace::output must keep testing _alias_of before
+    it descends."""
+    db = ctx.db
+    ctx.rule("R15.34", "in the generated parser, `new CPPNamespace(name, S)` with S the result of find_scope() and no _alias_of is reached only through a loop that starts at current_scope, steps with get_parent_scope(), and sets S to nullptr where the two are equal; CPPNamespace::output descends into the scope only where _alias_of is null")
+    fs = [f for f in db.functions if f.file.endswith("cppBison.cxx") and f.name.endswith("yyparse")]
+    if not fs:
+        ctx.broken("R15.34: generated parser not found")
+        return
+    yy = fs[0]
+    n_sites = n_alias = 0
+    for cs in yy.walk():
+        if cs.get("k") != "case":
+            continue
+        sub = list(walk(cs.get("sub") or {}))
+        for nw in sub:
+            if nw.get("k") != "new" or nw.get("ty") != "CPPNamespace":
+                continue
+            ct = [y for y in walk(nw) if y.get("k") == "ctor" and len(y.get("a") or []) >= 2]
+            if not ct:
+                continue
+            r = local_ref(ct[0]["a"][1])
+            if r is None:
+                continue
+            d = r["d"]
+            init = None
+            for z in sub:
+                if z.get("k") == "decls":
+                    for dd in z["d"]:
+                        if dd.get("d") == d:
+                            init = strip_casts(peel(dd.get("init"))) if dd.get("init") is not None else None
+            if not (init is not None and init.get("k") == "call" and callee_short(init) == "find_scope"):
+                continue
+            site = "src/cppparser/cppBison.yxx (case %s, generated line %s)" % (cs.get("v"), yy.loc(nw).split(":")[-1])
+            # the local that holds the new namespace; is its _alias_of assigned in this action?
+            holder = None
+            for z in sub:
+                if z.get("k") == "decls":
+                    for dd in z["d"]:
+                        if dd.get("init") is not None and any(y is nw or y.get("i") == nw.get("i") for y in walk(dd["init"])):
+                            holder = dd["d"]
+            alias = False
+            for z in sub:
+                t = assigned_target(z)
+                if t:
+                    tt = strip_casts(peel(t[0]))
+                    if tt is not None and tt.get("k") == "mem" and (tt.get("n") or "").endswith("CPPNamespace::_alias_of") and \
+                       (local_ref(tt.get("b")) or {}).get("d") == holder and holder is not None:
+                        alias = True
+            if alias:
+                n_alias += 1
+                ctx.ob("R15.34", "case%s|%s|alias" % (cs.get("v"), r.get("n")), True, site, "an alias: _alias_of is set in the same action, the declaration is written by name")
+                continue
+            n_sites += 1
+            ok, why = False, "no walk up the enclosing scopes compares them with `%s`" % r.get("n")
+            for lp in sub:
+                if lp.get("k") not in ("for", "while"):
+                    continue
+                if lp.get("i", 0) > nw.get("i", 0):
+                    continue
+                lsub = list(walk(lp))
+                # the walker: a local that starts at current_scope and is stepped by get_parent_scope() of itself
+                walker = None
+                for z in lsub:
+                    if z.get("k") == "decls":
+                        for dd in z["d"]:
+                            i0 = strip_casts(peel(dd.get("init"))) if dd.get("init") is not None else None
+                            if i0 is not None and i0.get("k") == "ref" and i0.get("n") == "current_scope":
+                                walker = dd["d"]
+                if walker is None:
+                    # declared just before the loop
+                    for z in sub:
+                        if z.get("k") == "decls" and z.get("i", 0) < lp.get("i", 0):
+                            for dd in z["d"]:
+                                i0 = strip_casts(peel(dd.get("init"))) if dd.get("init") is not None else None
+                                if i0 is not None and i0.get("k") == "ref" and i0.get("n") == "current_scope" and \
+                                   any((local_ref(y) or {}).get("d") == dd["d"] for y in lsub):
+                                    walker = dd["d"]
+                if walker is None:
+                    why = "the walk does not start at current_scope (the scope found may be current_scope itself)"
+                    continue
+                steps = []
+                others = []
+                for z in lsub:
+                    t = assigned_target(z)
+                    if t and (local_ref(t[0]) or {}).get("d") == walker:
+                        v = strip_casts(peel(t[1]))
+                        if v is not None and v.get("k") == "call" and callee_short(v) == "get_parent_scope" and (local_ref(v.get("this")) or {}).get("d") == walker:
+                            steps.append(z)
+                        else:
+                            others.append(z)
+                if not steps or others:
+                    why = "the walker is not stepped by get_parent_scope() of itself alone"
+                    continue
+                # the comparison and what happens on equality
+                hit = False
+                for y in lsub:
+                    if y.get("k") != "if":
+                        continue
+                    ca = G.cmp_atom(y.get("c")) if (y.get("c") or {}).get("k") == "bin" else None
+                    if not (ca and ca[0] == "=="):
+                        continue
+                    ds = {(local_ref(z) or {}).get("d") for z in ca[1:] if z is not None}
+                    if ds != {walker, d}:
+                        continue
+                    for z in walk(y.get("then") or {}):
+                        t = assigned_target(z)
+                        if t and (local_ref(t[0]) or {}).get("d") == d and (strip_casts(peel(t[1])) or {}).get("k") == "nullp":
+                            hit = True
+                if not hit:
+                    why = "the walk does not set `%s` to nullptr where it equals an enclosing scope" % r.get("n")
+                    continue
+                # the loop may stop early only on the walker or the scope being null, and nothing leaves it otherwise
+                atoms = []
+                def conj(c):
+                    c = strip_casts(peel(c)) if c is not None else None
+                    if c is not None and c.get("k") == "bin" and c.get("op") == "&&":
+                        conj(c.get("x")); conj(c.get("y"))
+                    elif c is not None:
+                        atoms.append(c)
+                conj(lp.get("c"))
+                cond_ok = bool(atoms)
+                for a in atoms:
+                    ca = G.cmp_atom(a) if a.get("k") == "bin" else None
+                    if ca and ca[0] == "!=":
+                        ds = [(local_ref(z) or {}).get("d") for z in ca[1:] if z is not None and (strip_casts(peel(z)) or {}).get("k") != "nullp"]
+                        nl = [z for z in ca[1:] if z is not None and (strip_casts(peel(z)) or {}).get("k") == "nullp"]
+                        if nl and len(ds) == 1 and ds[0] in (walker, d):
+                            continue
+                    if (local_ref(a) or {}).get("d") in (walker, d):
+                        continue
+                    cond_ok = False
+                leaves = [z for z in walk(lp.get("body") or {}) if z.get("k") in ("break", "ret", "goto", "continue")]
+                if not cond_ok or leaves:
+                    why = "the walk can stop before the top for a reason other than `%s` or the walker being null" % r.get("n")
+                    continue
+                ok, why = True, "a walk from current_scope up get_parent_scope() sets `%s` to nullptr where it is an enclosing scope" % r.get("n")
+                break
+            ctx.ob("R15.34", "case%s|%s|not-an-enclosing-namespace" % (cs.get("v"), r.get("n")), ok, site, why)
+    ctx.floor("R15.34", "namespace definitions that reopen a looked-up scope", n_sites, 1)
+    ctx.floor("R15.34", "namespace aliases", n_alias, 1)
+    # CPPNamespace::output descends only where _alias_of is null
+    outs = [f for f in db.functions if f.name == "CPPNamespace::output" and f.body]
+    if not outs:
+        ctx.broken("R15.34: CPPNamespace::output not found")
+        return
+    f = outs[0]
+    ws = [c for c in f.walk() if c.get("k") == "call" and callee_short(c) == "write" and (c.get("f") or "").startswith("CPPScope::")]
+    def alias_null(atom, truth):
+        ca = G.cmp_atom(atom) if atom.get("k") == "bin" else None
+        if not ca:
+            return False
+        m = [z for z in ca[1:] if z is not None and (strip_casts(peel(z)) or {}).get("k") == "mem" and (strip_casts(peel(z)).get("n") or "").endswith("::_alias_of")]
+        nl = [z for z in ca[1:] if z is not None and (strip_casts(peel(z)) or {}).get("k") == "nullp"]
+        if not (m and nl):
+            return False
+        return (ca[0] == "==" and truth) or (ca[0] == "!=" and not truth)
+    e = G.edges_where(f, alias_null)
+    ok = bool(ws) and bool(e) and all(G.gated(f, c, e) for c in ws)
+    ctx.ob("R15.34", "CPPNamespace::output|descends-only-without-alias", ok, f.loc(ws[0]) if ws else f.loc(), "_scope->write() is reached only where _alias_of is null")
 
 
 STRUCT_TYPE_EXEMPT = {
